@@ -17,6 +17,18 @@ import (
 // Receiver state names. "wrong" is a non-empty receiver of the wrong shape: the call must panic.
 var recvStates = []string{"zero", "dirty", "sized", "view", "wrong"}
 
+// Receivers use their own poison payload range so that a poison value copied from an operand's
+// padding into the receiver's surroundings cannot coincide with what was there.
+func rpoison(k int) float64 { return vlib.Poison64(0x4000 + k) }
+
+func rpoisoned(n int) []float64 {
+	s := make([]float64, n)
+	for i := range s {
+		s[i] = rpoison(i)
+	}
+	return s
+}
+
 func eqVal(a, b float64) bool {
 	if isPoison(a) || isPoison(b) {
 		return false
@@ -43,17 +55,17 @@ func newDenseRecv(state string, r, c, variant int) *denseRecv {
 	case "zero":
 		d.m = &mat.Dense{}
 	case "dirty": // emptied matrix whose backing array still holds garbage
-		d.back = poisoned(r*c + 5)
+		d.back = rpoisoned(r*c + 5)
 		d.m = mat.NewDense(1, r*c+5, d.back)
 		d.m.Reset()
 		d.ld = c
 	case "sized":
-		d.back = poisoned(r * c)
+		d.back = rpoisoned(r * c)
 		d.m = mat.NewDense(r, c, d.back)
 		d.ld = c
 	case "view":
 		d.ld = c + 4
-		d.back = poisoned((r + 2) * d.ld)
+		d.back = rpoisoned((r + 2) * d.ld)
 		d.m = mat.NewDense(r+2, d.ld, d.back).Slice(1, 1+r, 3, 3+c).(*mat.Dense)
 		d.off = d.ld + 3
 	case "wrong":
@@ -68,7 +80,7 @@ func newDenseRecv(state string, r, c, variant int) *denseRecv {
 				wr, wc = r+1, c+1
 			}
 		}
-		d.back = poisoned(wr * wc)
+		d.back = rpoisoned(wr * wc)
 		d.m = mat.NewDense(wr, wc, d.back)
 	}
 	return d
@@ -124,7 +136,7 @@ func (d *denseRecv) outside() string {
 				continue
 			}
 		}
-		if math.Float64bits(v) != math.Float64bits(vlib.Poison64(k)) {
+		if math.Float64bits(v) != math.Float64bits(rpoison(k)) {
 			return fmt.Sprintf("cell %d of the receiver's backing array outside the result window was written (%s)", k, vlib.B64(v))
 		}
 	}
@@ -148,14 +160,14 @@ func newVecRecv(state string, n, variant int) *vecRecv {
 	case "zero":
 		d.v = &mat.VecDense{}
 	case "dirty":
-		d.back = poisoned(n + 3)
+		d.back = rpoisoned(n + 3)
 		d.v = mat.NewVecDense(n+3, d.back)
 		d.v.Reset()
 	case "sized":
-		d.back = poisoned(n)
+		d.back = rpoisoned(n)
 		d.v = mat.NewVecDense(n, d.back)
 	case "view": // column 1 of a poisoned (n+1)×3 matrix restricted to n rows: inc 3
-		d.back = poisoned((n + 1) * 3)
+		d.back = rpoisoned((n + 1) * 3)
 		d.v = mat.NewDense(n+1, 3, d.back).Slice(0, n, 0, 3).(*mat.Dense).ColView(1).(*mat.VecDense)
 		d.off, d.inc = 1, 3
 	case "wrong":
@@ -163,7 +175,7 @@ func newVecRecv(state string, n, variant int) *vecRecv {
 		if variant%2 == 1 && n > 1 {
 			wn = n - 1
 		}
-		d.back = poisoned(wn)
+		d.back = rpoisoned(wn)
 		d.v = mat.NewVecDense(wn, d.back)
 	}
 	return d
@@ -202,7 +214,7 @@ func (d *vecRecv) outside() string {
 		if d.state != "wrong" && reused && k >= d.off && (k-d.off)%d.inc == 0 && (k-d.off)/d.inc < d.n {
 			continue
 		}
-		if math.Float64bits(v) != math.Float64bits(vlib.Poison64(k)) {
+		if math.Float64bits(v) != math.Float64bits(rpoison(k)) {
 			return fmt.Sprintf("cell %d outside the receiver vector was written (%s)", k, vlib.B64(v))
 		}
 	}
@@ -226,15 +238,15 @@ func newSymRecv(state string, n, variant int) *symRecv {
 	case "zero":
 		d.s = &mat.SymDense{}
 	case "dirty":
-		d.back = poisoned((n + 1) * (n + 1))
+		d.back = rpoisoned((n + 1) * (n + 1))
 		d.s = mat.NewSymDense(n+1, d.back)
 		d.s.Reset()
 	case "sized":
-		d.back = poisoned(n * n)
+		d.back = rpoisoned(n * n)
 		d.s = mat.NewSymDense(n, d.back)
 	case "view":
 		d.ld = n + 3
-		d.back = poisoned(d.ld * d.ld)
+		d.back = rpoisoned(d.ld * d.ld)
 		d.s = mat.NewSymDense(d.ld, d.back).SliceSym(2, 2+n).(*mat.SymDense)
 		d.off = 2*d.ld + 2
 	case "wrong":
@@ -242,7 +254,7 @@ func newSymRecv(state string, n, variant int) *symRecv {
 		if variant%2 == 1 && n > 1 {
 			wn = n - 1
 		}
-		d.back = poisoned(wn * wn)
+		d.back = rpoisoned(wn * wn)
 		d.s = mat.NewSymDense(wn, d.back)
 	}
 	return d
@@ -291,7 +303,7 @@ func outsideSquare(state string, back, data []float64, n, off, ld int, stored fu
 				continue
 			}
 		}
-		if math.Float64bits(v) != math.Float64bits(vlib.Poison64(k)) {
+		if math.Float64bits(v) != math.Float64bits(rpoison(k)) {
 			return fmt.Sprintf("cell %d outside the stored part of the receiver was written (%s)", k, vlib.B64(v))
 		}
 	}
@@ -317,31 +329,31 @@ func newTriRecv(state string, n int, upper bool, variant int) *triRecv {
 	case "zero":
 		d.t = &mat.TriDense{}
 	case "dirty":
-		d.back = poisoned((n + 1) * (n + 1))
+		d.back = rpoisoned((n + 1) * (n + 1))
 		d.t = mat.NewTriDense(n+1, !kind, d.back)
 		d.t.Reset()
 	case "sized":
-		d.back = poisoned(n * n)
+		d.back = rpoisoned(n * n)
 		d.t = mat.NewTriDense(n, kind, d.back)
 	case "view":
 		d.ld = n + 3
-		d.back = poisoned(d.ld * d.ld)
+		d.back = rpoisoned(d.ld * d.ld)
 		d.t = mat.NewTriDense(d.ld, kind, d.back).SliceTri(2, 2+n).(*mat.TriDense)
 		d.off = 2*d.ld + 2
 	case "wrong":
 		switch variant % 3 {
 		case 0:
-			d.back = poisoned((n + 1) * (n + 1))
+			d.back = rpoisoned((n + 1) * (n + 1))
 			d.t = mat.NewTriDense(n+1, kind, d.back)
 		case 1: // right size, wrong triangle
-			d.back = poisoned(n * n)
+			d.back = rpoisoned(n * n)
 			d.t = mat.NewTriDense(n, !kind, d.back)
 		case 2:
 			wn := max(1, n-1)
 			if wn == n {
 				wn = n + 2
 			}
-			d.back = poisoned(wn * wn)
+			d.back = rpoisoned(wn * wn)
 			d.t = mat.NewTriDense(wn, kind, d.back)
 		}
 	}
